@@ -69,6 +69,18 @@ CHECKS = {
         note="(a) 2-6 rows quick, 2-9 thorough; (b) bounds as C01 (shifted table). Recorded finding: all-zero column reported as 'no pinch'. " + ENGINE_NOTE,
         technique="solver-based path-exhaustive symbolic execution of the real code (z3)",
     ),
+    "C19": dict(
+        category="model_checking",
+        text="Stream: the real constructor and every solver-chosen sequence of 1-3 public assignments (t_supply, t_target, "
+             "heat_flow, dt_cont, htc, set_heat_flow) are executed symbolically with all values as z3 reals; after the constructor and "
+             "after every assignment the negated invariant (CP x span = duty, t_min <= t_max, shifted bounds follow the kind, "
+             "htr x htc = 1, bounds are the supply/target temperatures) is discharged. StreamCollection: every solver-chosen sequence "
+             "of 1-3 operations over a clash-prone name pool with symbolic sort keys, checked against an independent member model.",
+        design_ref="5/C19",
+        note="Sequences up to 2 ops (quick) / 3 ops (thorough); names are a finite pool {S,S_1,T}, not unbounded strings; "
+             "htc > 0 on assignment. " + ENGINE_NOTE,
+        technique="solver-based path-exhaustive symbolic execution of the real code (z3), operation sequences as solver choices",
+    ),
 }
 
 NOT_YET = {}
